@@ -11,7 +11,9 @@ pub mod c04;
 pub mod c05;
 pub mod c06;
 pub mod c07;
+pub mod c08;
 pub mod c09;
+pub mod c12;
 pub mod c14;
 pub mod c17;
 
@@ -25,7 +27,9 @@ pub fn registry() -> Vec<(&'static str, MonitorFn)> {
         ("C05", c05::run as MonitorFn),
         ("C06", c06::run as MonitorFn),
         ("C07", c07::run as MonitorFn),
+        ("C08", c08::run as MonitorFn),
         ("C09", c09::run as MonitorFn),
+        ("C12", c12::run as MonitorFn),
         ("C17", c17::run as MonitorFn),
     ]
 }
